@@ -50,10 +50,31 @@ func (r *idRun) ret(t string, found bool, id int) {
 
 const idNS = "ns"
 
+// callerBuf: names are handed to the dictionary as slices of a buffer the caller REUSES (the write path passes
+// slices of the row buffer, which is recycled between batches): the name is copied into a fresh-per-call view of a
+// reused backing array and the array is scribbled over as soon as the call returns
+type callerBuf struct{ b []byte }
+
+func (c *callerBuf) of(name string) []byte {
+	if cap(c.b) < len(name) {
+		c.b = make([]byte, 0, 64)
+	}
+	c.b = append(c.b[:0], name...)
+	return c.b
+}
+func (c *callerBuf) scribble() {
+	for i := range c.b {
+		c.b[i] = '#'
+	}
+}
+
 func (r *idRun) genMetric(t, name string) (metric.ID, bool) {
 	k := idKey{"metric", 0, name}
 	r.call(t, k, true)
-	id, err := r.db.GenMetricID([]byte(idNS), []byte(name))
+	var nsb, nb callerBuf
+	id, err := r.db.GenMetricID(nsb.of(idNS), nb.of(name))
+	nsb.scribble()
+	nb.scribble()
 	if err != nil {
 		r.rec.Emit("Error", trace.F{"op": "GenMetricID", "err": err.Error()})
 		return 0, false
@@ -77,7 +98,9 @@ func (r *idRun) getMetric(t, name string) {
 func (r *idRun) genTagKey(t string, mid metric.ID, key string) (tag.KeyID, bool) {
 	k := idKey{"tagkey", int(mid), key}
 	r.call(t, k, true)
-	id, err := r.db.GenTagKeyID(mid, []byte(key))
+	var kb callerBuf
+	id, err := r.db.GenTagKeyID(mid, kb.of(key))
+	kb.scribble()
 	if err != nil {
 		r.rec.Emit("Error", trace.F{"op": "GenTagKeyID", "err": err.Error()})
 		return 0, false
@@ -90,7 +113,9 @@ func (r *idRun) genTagKey(t string, mid metric.ID, key string) (tag.KeyID, bool)
 func (r *idRun) genTagValue(t string, kid tag.KeyID, val string) {
 	k := idKey{"tagvalue", int(kid), val}
 	r.call(t, k, true)
-	id, err := r.db.GenTagValueID(kid, []byte(val))
+	var vb callerBuf
+	id, err := r.db.GenTagValueID(kid, vb.of(val))
+	vb.scribble()
 	if err != nil {
 		r.rec.Emit("Error", trace.F{"op": "GenTagValueID", "err": err.Error()})
 		return
@@ -181,6 +206,12 @@ func (r *idRun) script(t string, rng *rand.Rand, n int, fields bool) {
 }
 
 func (r *idRun) flush() {
+	// a panic of the code under test is an observation the specification rejects, not a harness failure
+	defer func() {
+		if p := recover(); p != nil {
+			r.rec.Emit("Error", trace.F{"op": "Flush", "err": fmt.Sprint("panic: ", p)})
+		}
+	}()
 	r.db.PrepareFlush()
 	r.rec.Emit("Note", trace.F{"what": "PrepareFlush"})
 	if err := r.db.Flush(); err != nil {
